@@ -80,6 +80,7 @@ Definition c01_case (i r : sexp) : verdict :=
                   match find (fun x => match fst x with Some _ => true | None => false end) res with
                   | Some (Some why, _) =>
                       if shadowing_risk_prog p then VViol ("class=capture-under-binder " ++ name ++ " " ++ why)
+                      else if calls_main_prog p then VViol ("class=call-to-main-e2e " ++ name ++ " " ++ why)
                       else if negb (effect_sequenced p) then VSkip ("mismatch in a program whose effects are not sequenced (argument evaluation order unspecified): " ++ name)
                       else VViol ("class=end-to-end-mismatch " ++ name ++ " " ++ why)
                   | _ =>
